@@ -94,6 +94,13 @@ def evalApproval (p : AProfile) : Except Err (List Slot) :=
   | .ok d => .ok (getNBest d 1)
   | .error e => .error e
 
+/-- `PreConverted(ApprovalToSimpleVotes(split=True), Plurality()).evaluate(votes, 1)` (satisfaction approval: every
+    ballot is split evenly over the candidates it approves; an empty ballot divides by zero) -/
+def evalApprovalSplit (p : AProfile) : Except Err (List Slot) :=
+  match approvalToSimple true p with
+  | .ok d => .ok (getNBest d 1)
+  | .error e => .error e
+
 /-- `ScoreToSimpleVotes('sum').convert`: the per-candidate `{score: count}` tables (convert.py L186-196),
     their expansion and the builtin `sum` (L213-217) collapse to the sum of `score * count` -/
 def scoreSum (p : SProfile) : Votes :=
